@@ -539,16 +539,19 @@ func checkC08(c *Ctx) {
 	c.admissionRule(k, p.Fn("internal/circuitbreaker", "CircuitBreaker", "beforeRequest"))
 	exec := p.Fn("internal/circuitbreaker", "CircuitBreaker", "Execute")
 	c.traceRule("trial-always-reported", "circuitbreaker.(*CircuitBreaker).Execute", exec, c.cbSpec(true),
-		"every admitted request reports its outcome to afterRequest exactly once, so a spent half-open trial always leads to a transition",
+		"every admitted request reports its outcome to afterRequest exactly once, so a spent half-open trial always leads to a transition; a refused request reports nothing",
 		func(t *Trace) string {
-			if !t.Has("call-fn") {
-				return ""
-			}
 			n := 0
 			for _, it := range t.Items {
 				if strings.HasPrefix(it.Label, "afterRequest(") {
 					n++
 				}
+			}
+			if !t.Has("call-fn") {
+				if n != 0 {
+					return "a request that was refused reports an outcome: a refusal while a half-open trial is in flight re-opens the breaker and discards the trial, so overlapping traffic keeps it open for ever"
+				}
+				return ""
 			}
 			if n != 1 {
 				return fmt.Sprintf("an admitted request reports its outcome %d times: an unreported half-open trial leaves the breaker half-open with its budget spent for ever", n)
